@@ -525,8 +525,13 @@ def slice_dim(f, slicedef, fuzzydim=True):
             p2p.addVariable(inf, outf, varkey)
         else:
             axis = list(var.dimensions).index(dimkey)
-            vout = var[...].swapaxes(
-                0, axis)[dmin:dmax:dstride].swapaxes(0, axis).copy()
+            vout = var[...]
+            # a variable may have the dimension on more than one axis
+            for axisi, dk in enumerate(var.dimensions):
+                if dk == dimkey:
+                    vout = vout.swapaxes(
+                        0, axisi)[dmin:dmax:dstride].swapaxes(0, axisi)
+            vout = vout.copy()
 
             newlen = vout.shape[axis]
             newdim = outf.createDimension(dimkey, newlen)
